@@ -223,7 +223,7 @@ func runPaths(c *hx.Ctx) error {
 			want, inside := goResolve(parent, name)
 			res.AddBreak(proto.Break{Kind: "property", Name: clause, Case: "C18 rooted " + hexs(parent) + " " + hexs(name),
 				Human: fmt.Sprintf("rooted parent=%q name=%q", parent, name),
-				Impl: got, Model: fmt.Sprintf("resolution %q inside-root=%v", want, inside)})
+				Impl:  got, Model: fmt.Sprintf("resolution %q inside-root=%v", want, inside)})
 		}
 		if valid {
 			if _, inside := goResolve(p.parent, p.name); inside {
@@ -286,6 +286,18 @@ func runPaths(c *hx.Ctx) error {
 type ref struct {
 	kind byte // 'e' extends, 'i' import, 'r' render, 'd' render … default
 	path string
+	form form // how and where the statement is written (zero value: `{% … %}` / `{{ … }}`)
+}
+
+// form is the syntactic position of a path-taking statement.
+type form struct {
+	delim byte // 't' `{% … %}`; 'b' a statement of a `{%% … %%}` block; 's' `{{ … }}` (render); 'f' body of a function literal (plain render)
+	join  bool // 'b'/'f': in the block the previous reference left open, among its statements
+	group bool // import in a block: an element of a grouped `import ( … )`; with join: of the group left open
+	ident byte // import: 0 `import "p"`, 'n' `import n "p"`, '.' `import . "p"`, 'f' `import "p" for M`
+	via   byte // render: 0 shown, 'v' through a variable, 'o' (plain render) the operand of `default` of the preceding render
+	trail bool // 'b': a declaration follows the statement when it is the last one of its block
+	raw   bool // written as a raw string literal when the path allows it
 }
 
 type file struct {
@@ -298,13 +310,85 @@ type tcase struct {
 	files []file
 }
 
+func rawOK(p string) bool {
+	if !utf8.ValidString(p) {
+		return false
+	}
+	for i := 0; i < len(p); i++ {
+		if p[i] == '`' || p[i] < 0x20 || p[i] == 0x7f {
+			return false
+		}
+	}
+	return true
+}
+
+// layout normalises the forms of the references of a file (in canonical order): what source
+// writes and what the protocol line tells the model about the parse site of every reference.
+func layout(refs []ref) []form {
+	out := make([]form, len(refs))
+	for k, r := range refs {
+		f := r.form
+		switch r.kind {
+		case 'e':
+			if f.delim != 'b' {
+				f.delim, f.join, f.trail = 't', false, false
+			}
+			f.group, f.ident, f.via = false, 0, 0
+		case 'i':
+			if f.delim != 'b' {
+				f.delim, f.join, f.trail, f.group = 't', false, false, false
+			}
+			f.via = 0
+		default:
+			f.group, f.ident = false, 0
+			switch f.delim {
+			case 't', 'b':
+			case 'f':
+				if r.kind == 'd' || f.via == 'v' {
+					f.delim = 'b'
+				}
+			default:
+				f.delim = 's'
+			}
+			if f.delim != 'b' && f.delim != 'f' {
+				f.join, f.trail = false, false
+			}
+			switch f.via {
+			case 'v':
+				if f.delim == 's' || r.kind == 'd' { // (the type of a default expression depends on the format)
+					f.via = 0
+				}
+			case 'o':
+				if r.kind == 'r' && k > 0 && refs[k-1].kind == 'd' && out[k-1].delim != 'f' {
+					f = form{delim: out[k-1].delim, via: 'o', raw: f.raw}
+				} else {
+					f.via = 0
+				}
+			default:
+				f.via = 0
+			}
+		}
+		if r.kind == 'e' || r.kind == 'i' {
+			for _, later := range refs[k+1:] {
+				if later.kind == 'e' || later.kind == 'i' {
+					f.trail = false // an import cannot follow a declaration
+				}
+			}
+		}
+		f.raw = f.raw && rawOK(r.path)
+		out[k] = f
+	}
+	return out
+}
+
 func (t tcase) line() string {
 	var b strings.Builder
 	fmt.Fprintf(&b, "C18 build %s %d", hexs(t.root), len(t.files))
 	for _, f := range t.files {
 		fmt.Fprintf(&b, " %s %d", hexs(f.name), len(f.refs))
-		for _, r := range f.refs {
-			fmt.Fprintf(&b, " %c %s", r.kind, hexs(r.path))
+		lay := layout(f.refs)
+		for k, r := range f.refs {
+			fmt.Fprintf(&b, " %c %c %s", r.kind, lay[k].delim, hexs(r.path))
 		}
 	}
 	return b.String()
@@ -314,34 +398,188 @@ func (t tcase) human() string {
 	var b strings.Builder
 	fmt.Fprintf(&b, "BuildTemplate(fsys, %q) with", t.root)
 	for i, f := range t.files {
-		fmt.Fprintf(&b, " %q: `%s`;", f.name, source(i, f))
+		fmt.Fprintf(&b, " %q: `%s`;", f.name, t.source(i))
 	}
 	return b.String()
 }
 
+// blockWriter writes statements that are either on their own (`{% … %}`, `{{ … }}`) or
+// statements of a `{%% … %%}` block that stays open for the next one that wants to join it.
+type blockWriter struct {
+	b     strings.Builder
+	block bool // a `{%% ` is open
+	group bool // … and in it an `import ( `
+	n     int  // statements written in the open block
+	trail bool
+	seq   int
+}
+
+func (w *blockWriter) closeGroup() {
+	if w.group {
+		w.b.WriteString(" )")
+		w.group = false
+	}
+}
+
+func (w *blockWriter) closeBlock() {
+	w.closeGroup()
+	if w.block {
+		if w.trail {
+			w.seq++
+			fmt.Fprintf(&w.b, "; var t%d = %d", w.seq, w.seq)
+		}
+		w.b.WriteString(" %%}")
+		w.block, w.trail, w.n = false, false, 0
+	}
+}
+
+// sep alternates between the two statement separators of a block
+func (w *blockWriter) sep() {
+	w.seq++
+	if w.seq%2 == 0 {
+		w.b.WriteString("\n")
+	} else {
+		w.b.WriteString("; ")
+	}
+}
+
+// statement starts a statement of a block (joining the open one if asked to)
+func (w *blockWriter) statement(join bool) {
+	w.closeGroup()
+	if !(join && w.block) {
+		w.closeBlock()
+		w.b.WriteString("{%% ")
+		w.block = true
+	}
+	if w.n > 0 {
+		w.sep()
+	}
+	w.n++
+}
+
+// groupElement starts an element of a grouped import
+func (w *blockWriter) groupElement(join bool) {
+	if join && w.block && w.group {
+		w.sep()
+		return
+	}
+	w.statement(join)
+	w.b.WriteString("import ( ")
+	w.group = true
+}
+
+func lit(path string, raw bool) string {
+	if raw {
+		return "`" + path + "`"
+	}
+	return quote(path)
+}
+
+// macroOf is the name of the macro the file a reference resolves to declares ("M" if none).
+func (t tcase) macroOf(parent, p string) string {
+	if goValidTemplatePath(p) {
+		if target, ok := goResolve(parent, p); ok {
+			for j, g := range t.files {
+				if g.name == target {
+					return "M" + strconv.Itoa(j)
+				}
+			}
+		}
+	}
+	return "M"
+}
+
 // source is the template source of a file: extends first, then the imports, then one macro
-// whose body holds the render expressions (valid in extending, imported and rendered files).
-func source(idx int, f file) string {
-	var b strings.Builder
-	for _, r := range f.refs {
+// whose body holds the render expressions (valid in extending, imported and rendered files);
+// each statement in the form its reference asks for.
+func (t tcase) source(idx int) string {
+	f := t.files[idx]
+	lay := layout(f.refs)
+	var w blockWriter
+	for k, r := range f.refs {
+		fm := lay[k]
+		var stmt string
 		switch r.kind {
 		case 'e':
-			fmt.Fprintf(&b, "{%% extends %s %%}", quote(r.path))
+			stmt = "extends " + lit(r.path, fm.raw)
 		case 'i':
-			fmt.Fprintf(&b, "{%% import %s %%}", quote(r.path))
+			switch fm.ident {
+			case 'n':
+				stmt = fmt.Sprintf("n%d %s", k, lit(r.path, fm.raw))
+			case '.':
+				stmt = ". " + lit(r.path, fm.raw)
+			case 'f':
+				stmt = lit(r.path, fm.raw) + " for " + t.macroOf(f.name, r.path)
+			default:
+				stmt = lit(r.path, fm.raw)
+			}
+		default:
+			continue
+		}
+		switch {
+		case fm.delim == 't':
+			w.closeBlock()
+			if r.kind == 'i' {
+				stmt = "import " + stmt
+			}
+			w.b.WriteString("{% " + stmt + " %}")
+		case r.kind == 'i' && fm.group:
+			w.groupElement(fm.join)
+			w.b.WriteString(stmt)
+			w.trail = fm.trail
+		default:
+			w.statement(fm.join)
+			if r.kind == 'i' {
+				stmt = "import " + stmt
+			}
+			w.b.WriteString(stmt)
+			w.trail = fm.trail
 		}
 	}
-	fmt.Fprintf(&b, "{%% macro M%d %%}", idx)
-	for _, r := range f.refs {
-		switch r.kind {
-		case 'r':
-			fmt.Fprintf(&b, "{{ render %s }}", quote(r.path))
-		case 'd':
-			fmt.Fprintf(&b, "{{ render %s default \"\" }}", quote(r.path))
+	w.closeBlock()
+	fmt.Fprintf(&w.b, "{%% macro M%d %%}", idx)
+	for k := 0; k < len(f.refs); k++ {
+		r, fm := f.refs[k], lay[k]
+		if r.kind != 'r' && r.kind != 'd' {
+			continue
+		}
+		expr := "render " + lit(r.path, fm.raw)
+		if r.kind == 'd' {
+			if k+1 < len(f.refs) && lay[k+1].via == 'o' {
+				expr += " default render " + lit(f.refs[k+1].path, lay[k+1].raw)
+				k++
+			} else {
+				expr += ` default ""`
+			}
+		}
+		switch fm.delim {
+		case 's':
+			w.closeBlock()
+			w.b.WriteString("{{ " + expr + " }}")
+		case 't':
+			w.closeBlock()
+			if fm.via == 'v' {
+				fmt.Fprintf(&w.b, "{%% var v%d = %s %%}{{ v%d }}", k, expr, k)
+			} else {
+				w.b.WriteString("{% show " + expr + " %}")
+			}
+		case 'b':
+			w.statement(fm.join)
+			if fm.via == 'v' {
+				fmt.Fprintf(&w.b, "var v%d = %s; show v%d", k, expr, k)
+			} else {
+				w.b.WriteString("show " + expr)
+			}
+			w.trail = fm.trail
+		case 'f':
+			w.statement(fm.join)
+			fmt.Fprintf(&w.b, "var f%d = func() any { return %s }; show f%d()", k, expr, k)
+			w.trail = fm.trail
 		}
 	}
-	b.WriteString("{% end %}")
-	return b.String()
+	w.closeBlock()
+	w.b.WriteString("{% end %}")
+	return w.b.String()
 }
 
 // quote writes p as an interpreted string literal of the template language.
@@ -444,7 +682,7 @@ type outcome struct {
 func build(t tcase, formatFS bool) outcome {
 	rec := &recFS{files: map[string]string{}, limit: 20*len(t.files) + 50}
 	for i, f := range t.files {
-		rec.files[f.name] = source(i, f)
+		rec.files[f.name] = t.source(i)
 	}
 	var fsys fs.FS = rec
 	if formatFS {
@@ -606,6 +844,28 @@ func buildOracle(t tcase, o outcome) (clause string) {
 			}
 		}
 	}
+	// an invalid path is a build error that names the path: the first file opened that holds a
+	// reference with an invalid path is not parsed any further, whatever the form of the statement
+invalid:
+	for _, n := range o.opens {
+		f := exists[n]
+		if f == nil {
+			continue
+		}
+		for _, r := range f.refs {
+			if goValidTemplatePath(r.path) {
+				continue
+			}
+			var be *scriggo.BuildError
+			if !errors.As(o.err, &be) || !strings.Contains(be.Message(), "invalid") || !strings.Contains(be.Message(), strconv.Quote(r.path)) {
+				return "invalid-path-is-an-error-naming-the-path"
+			}
+			if c := afterInvalid(n, o); c != "" {
+				return c
+			}
+			break invalid
+		}
+	}
 	// no existing file is opened twice
 	seen := map[string]bool{}
 	for _, n := range o.opens {
@@ -653,6 +913,14 @@ func buildOracle(t tcase, o outcome) (clause string) {
 	return ""
 }
 
+// afterInvalid: nothing is opened after the file whose parsing failed.
+func afterInvalid(n string, o outcome) string {
+	if len(o.opens) > 0 && o.opens[len(o.opens)-1] != n {
+		return "nothing-opened-after-a-syntax-error"
+	}
+	return ""
+}
+
 // reachableCycle tells whether the graph of the files reachable from the root through
 // references that resolve to existing files has a cycle, and whether nothing else can go wrong
 // first (pure: every reachable reference is a plain render of an existing file).
@@ -696,6 +964,41 @@ func reachableCycle(t tcase, exists map[string]*file) (cyclic, pure bool) {
 var dirNames = []string{"a", "b", "c", "é", ".h", "a..", "x y", "c.d"}
 var fileNames = []string{"f", "g", "h", "i.x", "é", ".j", "k.."}
 var badRefs = []string{".", "", "/", "a//b", "a/../b", "a/", "./a", "..", "../", "../..", "/../a", "a/./b", "/a/", "../a/../b", "\xff"}
+
+// pathFamily is the path dimension of the matrix: valid and invalid spellings, written for a
+// referencing file two directories deep ("d/e/x") next to the files "t", "d/t", "d/e/t".
+var pathFamily = func() []string {
+	long := strings.Repeat("a", 300)
+	ps := []string{
+		// absolute and relative, valid
+		"/t", "/d/t", "/d/e/t", "/nofile", "t", "../t", "../../t", "e/t", "nofile", "../nofile",
+		// leaving the root
+		"../../../t", "../../../../t", "../../..",
+		// '..' at the start after the slash, in the middle, at the end
+		"/../t", "/../../t", "/..", "/../d/t", "d/../t", "/d/../t", "../d/../t", "/d/e/../../../t", "/d/../../t", "t/../../../../t",
+		"d/..", "/d/..", "t/..", "..", "../..", "../", "../../", "/../", "...", "/.../t", "..t", "/..t", "t..", "../..t",
+		// empty elements, trailing slash
+		"//t", "d//t", "/d//t", "t//", "//", "///t", "t/", "/t/", "d/", "/", "../t/", "/d/e/",
+		// '.' elements
+		".", "./t", "/./t", "d/./t", "/.", "t/.", "./", "/./", "./../t", "/./../t",
+		// empty
+		"",
+		// backslashes (ordinary bytes of a name for io/fs)
+		"\\t", "..\\t", "/..\\t", "d\\..\\t", "\\..\\t", "/\\", "..\\..\\t", "/d\\..\\..\\t",
+		// NUL and control bytes
+		"t\x00", "/t\x00", "/\x00", "\x00/../t", "/\x00/../t", "d/\x01", "\x7f", "/..\x00/t", "..\x00", "\n", "/t\n", "/../t\r",
+		// very long
+		"/" + long, long, "/" + long + "/../../t", strings.Repeat("../", 300) + "t", "/" + strings.Repeat("d/", 200) + "t",
+		"/" + strings.Repeat("../", 100) + "t", "/" + strings.Repeat("a/../", 100) + "t", "/" + strings.Repeat("/", 300),
+		// not UTF-8
+		"\xff", "/\xfft", "d/\xc3", "/\xc0\xaf../t", "\xc0\xae\xc0\xae/t", "/\xc0\xae\xc0\xae/t", "/..\xff/t", "/\xed\xa0\x80",
+		// percent-encoded and other spellings of '..' and '/' (ordinary names)
+		"%2e%2e/t", "/%2e%2e/t", "..%2ft", "/d%2f..%2f..%2ft", "/%2e%2e%2ft", "..;/t", "/..;/t", "\u2025/t", "/\uff0e\uff0e/t", "/\u2215../t",
+		// names with ':'
+		"c:/t", "/c:/t", "c:t", "/c:\\t", "http:/t", "file://t", "/file:///t", "c:/../t", "/c:/../../t", "::", "/:",
+	}
+	return ps
+}()
 
 func relativeRef(c *hx.Ctx, parent, target string) string {
 	pd := strings.Split(parent, "/")
@@ -745,6 +1048,12 @@ func genCase(c *hx.Ctx) tcase {
 	case x < 6:
 		forward = 8 + c.R.Intn(2)
 	}
+	formed := c.R.Intn(5) != 0 // one case in five is written with plain `{% … %}` / `{{ … }}` only
+	bad := 60                  // one reference in `bad` has an invalid path …
+	family := false            // … taken from the small list or from the whole family
+	if c.R.Intn(4) == 0 {
+		bad, family = 12, c.R.Intn(2) == 0
+	}
 	for i := range t.files {
 		f := &t.files[i]
 		var refs []ref
@@ -772,7 +1081,7 @@ func genCase(c *hx.Ctx) tcase {
 		}
 		for j := range refs {
 			var target string
-			switch x := c.R.Intn(60); {
+			switch x := c.R.Intn(bad); {
 			case x == 0:
 				target = "" // a bad reference
 			case x == 1:
@@ -792,6 +1101,8 @@ func genCase(c *hx.Ctx) tcase {
 				}
 			}
 			switch x := c.R.Intn(20); {
+			case target == "" && family:
+				refs[j].path = c.R.Pick(pathFamily)
 			case target == "":
 				refs[j].path = c.R.Pick(badRefs)
 			case x < 6:
@@ -805,6 +1116,11 @@ func genCase(c *hx.Ctx) tcase {
 			}
 		}
 		f.refs = canonical(refs)
+		if formed {
+			for j := range f.refs {
+				f.refs[j].form = randForm(c, f.refs[j].kind)
+			}
+		}
 	}
 	switch x := c.R.Intn(40); {
 	case x == 0:
@@ -816,6 +1132,160 @@ func genCase(c *hx.Ctx) tcase {
 		}
 	}
 	return t
+}
+
+func pickByte(c *hx.Ctx, bs ...byte) byte { return bs[c.R.Intn(len(bs))] }
+
+// randForm picks a syntactic position for a reference of the given kind.
+func randForm(c *hx.Ctx, kind byte) form {
+	var f form
+	if c.R.Intn(3) == 0 {
+		return f
+	}
+	f.raw = c.R.Intn(5) == 0
+	switch kind {
+	case 'e':
+		f.delim = pickByte(c, 't', 'b', 'b')
+		f.trail = c.R.Intn(4) == 0
+	case 'i':
+		f.delim = pickByte(c, 't', 'b', 'b', 'b')
+		f.join = c.R.Intn(2) == 0
+		f.group = c.R.Intn(2) == 0
+		f.ident = pickByte(c, 0, 0, 'n', '.', 'f')
+		f.trail = c.R.Intn(4) == 0
+	default:
+		f.delim = pickByte(c, 's', 't', 'b', 'b', 'f')
+		f.join = c.R.Intn(2) == 0
+		f.via = pickByte(c, 0, 0, 'v', 'o')
+		f.trail = c.R.Intn(4) == 0
+	}
+	return f
+}
+
+// ---------------------------------------------------------------------------------------------
+// the matrix: statement × delimiter form × file role × path family
+
+// A shape writes the reference under test (path p) into a file, in one syntactic position,
+// possibly next to references to the existing file "/t".
+type shape struct {
+	name string
+	refs func(p string) []ref
+}
+
+var shapes = func() []shape {
+	var out []shape
+	one := func(name string, kind byte, f form) {
+		out = append(out, shape{name, func(p string) []ref { return []ref{{kind: kind, path: p, form: f}} }})
+	}
+	after := func(name string, kind byte, first, f form) { // second statement, after one that refers to /t
+		out = append(out, shape{name, func(p string) []ref {
+			return []ref{{kind: kind, path: "/t", form: first}, {kind: kind, path: p, form: f}}
+		}})
+	}
+	before := func(name string, kind byte, f, next form) { // first statement, one that refers to /t follows
+		out = append(out, shape{name, func(p string) []ref {
+			return []ref{{kind: kind, path: p, form: f}, {kind: kind, path: "/t", form: next}}
+		}})
+	}
+	// extends
+	one("extends {% %}", 'e', form{delim: 't'})
+	one("extends {%% %%}", 'e', form{delim: 'b'})
+	one("extends {%% %%} raw string", 'e', form{delim: 'b', raw: true})
+	one("extends {%% %%} + declaration", 'e', form{delim: 'b', trail: true})
+	out = append(out, shape{"extends {%% %%} + import", func(p string) []ref {
+		return []ref{{kind: 'e', path: p, form: form{delim: 'b'}}, {kind: 'i', path: "/t", form: form{delim: 'b', join: true}}}
+	}})
+	out = append(out, shape{"import in the {%% %%} of an extends", func(p string) []ref {
+		return []ref{{kind: 'e', path: "/l", form: form{delim: 'b'}}, {kind: 'i', path: p, form: form{delim: 'b', join: true}}}
+	}})
+	out = append(out, shape{"grouped import after {% extends %}", func(p string) []ref {
+		return []ref{{kind: 'e', path: "/l"}, {kind: 'i', path: p, form: form{delim: 'b', group: true}}}
+	}})
+	// import: plain / named / dot / for-list
+	for _, id := range []byte{0, 'n', '.', 'f'} {
+		n := map[byte]string{0: "import", 'n': "import n", '.': "import .", 'f': "import for"}[id]
+		one(n+" {% %}", 'i', form{delim: 't', ident: id})
+		one(n+" {% %} raw string", 'i', form{delim: 't', ident: id, raw: true})
+		one(n+" {%% %%}", 'i', form{delim: 'b', ident: id})
+		one(n+" {%% %%} + declaration", 'i', form{delim: 'b', ident: id, trail: true})
+		after(n+" {%% %%} second", 'i', form{delim: 'b'}, form{delim: 'b', join: true, ident: id, trail: true})
+		before(n+" {%% %%} first", 'i', form{delim: 'b', ident: id}, form{delim: 'b', join: true})
+		after(n+" {%% %%} after {% import %}", 'i', form{delim: 't'}, form{delim: 'b', ident: id})
+		one(n+" grouped", 'i', form{delim: 'b', group: true, ident: id})
+		one(n+" grouped raw string", 'i', form{delim: 'b', group: true, ident: id, raw: true})
+		after(n+" grouped second", 'i', form{delim: 'b', group: true}, form{delim: 'b', group: true, join: true, ident: id})
+		before(n+" grouped first", 'i', form{delim: 'b', group: true, ident: id}, form{delim: 'b', group: true, join: true, trail: true})
+		after(n+" second group", 'i', form{delim: 'b', group: true}, form{delim: 'b', group: true, ident: id})
+		after(n+" grouped after plain in one block", 'i', form{delim: 'b'}, form{delim: 'b', join: true, group: true, ident: id})
+	}
+	// render expression
+	one("render {{ }}", 'r', form{delim: 's'})
+	one("render {{ }} raw string", 'r', form{delim: 's', raw: true})
+	one("render {% show %}", 'r', form{delim: 't'})
+	one("render {% var %}", 'r', form{delim: 't', via: 'v'})
+	one("render {%% show %%}", 'r', form{delim: 'b'})
+	one("render {%% show %%} + declaration", 'r', form{delim: 'b', trail: true})
+	one("render {%% var %%}", 'r', form{delim: 'b', via: 'v'})
+	one("render in a function literal", 'r', form{delim: 'f'})
+	after("render {%% show %%} second", 'r', form{delim: 'b'}, form{delim: 'b', join: true})
+	before("render {%% show %%} first", 'r', form{delim: 'b'}, form{delim: 'b', join: true})
+	after("render in a function literal, second", 'r', form{delim: 'b'}, form{delim: 'f', join: true})
+	// render with default
+	one("render default {{ }}", 'd', form{delim: 's'})
+	one("render default {% show %}", 'd', form{delim: 't'})
+	one("render default {%% show %%}", 'd', form{delim: 'b'})
+	after("render default {%% show %%} second", 'd', form{delim: 'b'}, form{delim: 'b', join: true, raw: true})
+	for _, dl := range []byte{'s', 't', 'b'} {
+		dl := dl
+		out = append(out, shape{fmt.Sprintf("render as the default of a render (%c)", dl), func(p string) []ref {
+			return []ref{{kind: 'd', path: "/nofile", form: form{delim: dl}}, {kind: 'r', path: p, form: form{via: 'o'}}}
+		}})
+	}
+	return out
+}()
+
+var roles = []string{"root", "imported", "layout", "rendered", "rendered by an imported file", "imported by the layout"}
+
+// matrixCase: the file d/e/x holds the shape; role says how it comes to be loaded.
+func matrixCase(role int, sh shape, p string) tcase {
+	x := file{name: "d/e/x", refs: canonical(sh.refs(p))}
+	others := []file{{name: "t"}, {name: "d/t"}, {name: "d/e/t"}, {name: "l"}}
+	var t tcase
+	switch role {
+	case 0:
+		t = tcase{root: "d/e/x", files: []file{x}}
+	case 1:
+		t = tcase{root: "d/index", files: []file{{name: "d/index", refs: []ref{{kind: 'i', path: "e/x"}}}, x}}
+	case 2:
+		t = tcase{root: "d/index", files: []file{{name: "d/index", refs: []ref{{kind: 'e', path: "/d/e/x", form: form{delim: 'b'}}}}, x}}
+	case 3:
+		t = tcase{root: "d/index", files: []file{{name: "d/index", refs: []ref{{kind: 'r', path: "e/x", form: form{delim: 'b'}}}}, x}}
+	case 4:
+		t = tcase{root: "index", files: []file{{name: "index", refs: []ref{{kind: 'i', path: "d/m", form: form{delim: 'b', group: true}}}},
+			{name: "d/m", refs: []ref{{kind: 'r', path: "../d/e/x"}}}, x}}
+	default:
+		t = tcase{root: "d/index", files: []file{{name: "d/index", refs: []ref{{kind: 'e', path: "../l2"}}},
+			{name: "l2", refs: []ref{{kind: 'i', path: "d/e/x", form: form{delim: 'b'}}}}, x}}
+	}
+	t.files = append(t.files, others...)
+	return t
+}
+
+// matrix enumerates role × shape × path; in the quick tier the roles other than "root" take
+// every path of the family in turn instead of all of them (stride by shape and role).
+func matrix(c *hx.Ctx) (cases []tcase, labels []string) {
+	for role := range roles {
+		for si, sh := range shapes {
+			for pi, p := range pathFamily {
+				if c.Quick() && role > 0 && (pi+si+role)%len(roles) != 0 {
+					continue
+				}
+				cases = append(cases, matrixCase(role, sh, p))
+				labels = append(labels, roles[role]+" / "+sh.name)
+			}
+		}
+	}
+	return
 }
 
 // shrink removes references and files while pred keeps holding.
@@ -850,6 +1320,24 @@ func shrink(t tcase, pred func(tcase) bool) tcase {
 				}
 			}
 		}
+		// the plainest form that still fails
+		for i := range t.files {
+			for j := range t.files[i].refs {
+				old := t.files[i].refs[j].form
+				for _, simpler := range []form{{}, {delim: old.delim}, {delim: old.delim, group: old.group},
+					{delim: old.delim, group: old.group, join: old.join, ident: old.ident, via: old.via}} {
+					if simpler == old {
+						break
+					}
+					u := clone(t)
+					u.files[i].refs[j].form = simpler
+					if pred(u) {
+						t, changed = u, true
+						break
+					}
+				}
+			}
+		}
 	}
 	return t
 }
@@ -860,17 +1348,23 @@ func runBuilds(c *hx.Ctx) error {
 	var cases []tcase
 	// the cycle tests of the repository, a few fixed shapes
 	cases = append(cases,
-		tcase{root: "index", files: []file{{"index", []ref{{'e', "/layout"}}}, {"layout", []ref{{'i', "/macros/macro"}}},
-			{"partials/partial", []ref{{'i', "/macros/macro"}}}, {"macros/macro", []ref{{'r', "/partials/partial"}}}}},
-		tcase{root: "index", files: []file{{"index", []ref{{'r', "index"}}}}},
-		tcase{root: "index", files: []file{{"index", []ref{{'e', "/index"}}}}},
-		tcase{root: "a/index", files: []file{{"a/index", []ref{{'i', "../a/index"}}}}},
-		tcase{root: "a/b/f", files: []file{{"a/b/f", []ref{{'r', "../../../f"}}}, {"f", nil}}},
-		tcase{root: "a/b/f", files: []file{{"a/b/f", []ref{{'r', "../../f"}, {'d', "../../../f"}, {'i', "../../../f"}}}, {"f", nil}}},
-		tcase{root: "f", files: []file{{"f", []ref{{'r', "g"}, {'r', "g"}, {'r', "/g"}, {'r', "h"}}}, {"g", []ref{{'r', "h"}}}, {"h", nil}}},
+		tcase{root: "index", files: []file{{"index", []ref{{kind: 'e', path: "/layout"}}}, {"layout", []ref{{kind: 'i', path: "/macros/macro"}}},
+			{"partials/partial", []ref{{kind: 'i', path: "/macros/macro"}}}, {"macros/macro", []ref{{kind: 'r', path: "/partials/partial"}}}}},
+		tcase{root: "index", files: []file{{"index", []ref{{kind: 'r', path: "index"}}}}},
+		tcase{root: "index", files: []file{{"index", []ref{{kind: 'e', path: "/index"}}}}},
+		tcase{root: "a/index", files: []file{{"a/index", []ref{{kind: 'i', path: "../a/index"}}}}},
+		tcase{root: "a/b/f", files: []file{{"a/b/f", []ref{{kind: 'r', path: "../../../f"}}}, {"f", nil}}},
+		tcase{root: "a/b/f", files: []file{{"a/b/f", []ref{{kind: 'r', path: "../../f"}, {kind: 'd', path: "../../../f"}, {kind: 'i', path: "../../../f"}}}, {"f", nil}}},
+		tcase{root: "f", files: []file{{"f", []ref{{kind: 'r', path: "g"}, {kind: 'r', path: "g"}, {kind: 'r', path: "/g"}, {kind: 'r', path: "h"}}}, {"g", []ref{{kind: 'r', path: "h"}}}, {"h", nil}}},
 	)
+	labels := make([]string, len(cases))
+	mcases, mlabels := matrix(c)
+	cases = append(cases, mcases...)
+	labels = append(labels, mlabels...)
+	nmatrix := len(mcases)
 	for i := 0; i < n; i++ {
 		cases = append(cases, genCase(c))
+		labels = append(labels, "")
 	}
 	lines := make([]string, len(cases))
 	for i, t := range cases {
@@ -884,6 +1378,7 @@ func runBuilds(c *hx.Ctx) error {
 			return err
 		}
 	}
+	reported := map[string]int{}
 	for i, t := range cases {
 		formatFS := i%2 == 1
 		o := build(t, formatFS)
@@ -898,19 +1393,89 @@ func runBuilds(c *hx.Ctx) error {
 		if formatFS {
 			res.Hist("build:through-FormatFS")
 		}
+		if labels[i] != "" {
+			res.Hist("matrix:" + labels[i])
+		}
+		for _, f := range t.files {
+			for k, fm := range layout(f.refs) {
+				res.Hist(fmt.Sprintf("site:%c%c", f.refs[k].kind, fm.delim))
+			}
+		}
 		res.Count("b:"+lines[i], len(o.opens) > 1)
-		if i%499 == 0 && len(o.opens) > 2 {
+		if (i%499 == 0 || i == 7+nmatrix/2) && len(o.opens) > 2 {
 			res.Sample(map[string]string{"line": lines[i], "human": t.human(), "impl": got})
 		}
 		if clause := buildOracle(t, o); clause != "" {
-			min := shrink(t, func(u tcase) bool { return buildOracle(u, build(u, formatFS)) == clause })
-			mo := build(min, formatFS)
-			res.AddBreak(proto.Break{Kind: "property", Name: clause, Case: min.line(), Human: min.human(),
-				Impl: classify(min, mo), Model: "property clause " + clause + " (see go/props/c18/main.go:buildOracle)"})
+			reported[clause]++
+			if reported[clause] <= 3 {
+				min := shrink(t, func(u tcase) bool { return buildOracle(u, build(u, formatFS)) == clause })
+				mo := build(min, formatFS)
+				res.AddBreak(proto.Break{Kind: "property", Name: clause, Case: min.line(), Human: min.human(),
+					Impl: classify(min, mo), Model: "property clause " + clause + " (see go/props/c18/main.go:buildOracle)"})
+			}
 		}
 		if model != nil && got != model[i] {
 			res.AddBreak(proto.Break{Kind: "correspondence", Name: "parseTemplate-model-vs-scriggo.BuildTemplate", Case: lines[i],
 				Human: t.human(), Impl: got, Model: model[i]})
+		}
+	}
+	return nil
+}
+
+// runSites: the guard of every parse site, observed on the real parser (a one-statement file
+// written in that position: is the path refused as invalid?) against the generated table the
+// model is run with, for every path of the family.
+func runSites(c *hx.Ctx) error {
+	res := c.Res
+	type sc struct {
+		kind, delim byte
+		shape       shape
+		path        string
+	}
+	var cases []sc
+	var lines []string
+	for _, sh := range shapes {
+		for _, p := range pathFamily {
+			refs := canonical(sh.refs(p))
+			lay := layout(refs)
+			k := -1
+			for j, r := range refs {
+				if r.path == p && (k < 0 || r.path != "/t") {
+					k = j
+				}
+			}
+			if k < 0 {
+				continue
+			}
+			kind := refs[k].kind
+			if kind == 'd' {
+				kind = 'r'
+			}
+			cases = append(cases, sc{kind, lay[k].delim, sh, p})
+			lines = append(lines, fmt.Sprintf("C18 site %c %c %s", kind, lay[k].delim, hexs(p)))
+		}
+	}
+	var model []string
+	if c.D != nil {
+		var err error
+		if model, err = c.D.Batch(lines); err != nil {
+			return err
+		}
+	}
+	for i, s := range cases {
+		t := tcase{root: "d/e/x", files: []file{{name: "d/e/x", refs: canonical(s.shape.refs(s.path))}, {name: "t"}, {name: "l"}}}
+		o := build(t, false)
+		var be *scriggo.BuildError
+		refused := errors.As(o.err, &be) && strings.Contains(be.Message(), "invalid") && strings.Contains(be.Message(), strconv.Quote(s.path))
+		res.Count("s:"+s.shape.name+"\x01"+s.path, !goValidTemplatePath(s.path))
+		res.Hist(fmt.Sprintf("site-guard:%c%c", s.kind, s.delim))
+		if refused == goValidTemplatePath(s.path) {
+			res.AddBreak(proto.Break{Kind: "property", Name: "site-refuses-exactly-the-invalid-paths", Case: t.line(), Human: s.shape.name + ": " + t.human(),
+				Impl: classify(t, o), Model: fmt.Sprintf("ValidTemplatePath(%q) is %v as documented", s.path, goValidTemplatePath(s.path))})
+		}
+		if model != nil && model[i] != boolLine(!refused) {
+			res.AddBreak(proto.Break{Kind: "correspondence", Name: "site-guard-table-vs-parser", Case: lines[i], Human: s.shape.name + ": " + t.human(),
+				Impl: boolLine(!refused), Model: model[i]})
 		}
 	}
 	return nil
@@ -922,8 +1487,17 @@ func run(c *hx.Ctx) error {
 		"(2) generated file trees of 1–10 files in directories of depth ≤ 3 with extends/import/render/render-default references written " +
 		"relative, absolute, with leading ../, escaping, to missing files, with invalid paths, self references and longer cycles, shared " +
 		"partials, built with scriggo.BuildTemplate through a recording fs.FS (odd cases: as FormatFS) " +
-		"(non-trivial: more than one Open, distinct by protocol line)"
+		"(non-trivial: more than one Open, distinct by protocol line); four cases in five write every statement in a random syntactic " +
+		"position: {% %} / a statement of a {%% %%} block (alone, first, among others, followed by a declaration) / grouped import ( … ) / " +
+		"import plain, named, dot, for-list / render shown, through a variable, in a function literal, as the default of a render / raw string; " +
+		"(3) the matrix file role {root, imported, layout, rendered, rendered by an imported file, imported by the layout} × statement " +
+		"shape (see `shapes`) × path family (absolute, relative, '..' at start/middle/end, '//', trailing '/', '.', empty, backslashes, " +
+		"NUL/control bytes, very long, non-UTF-8, percent-encoded, ':' names): exhaustive for the root role, strided for the others in the " +
+		"quick tier; (4) per shape × path: the site refuses exactly the invalid paths, and agrees with the generated site table"
 	if err := runPaths(c); err != nil {
+		return err
+	}
+	if err := runSites(c); err != nil {
 		return err
 	}
 	if err := runBuilds(c); err != nil {
